@@ -43,3 +43,32 @@ Proof.
   cbn [gen_agg_run fold_left]. rewrite gen_agg_record_model. cbn [obind cs_tuple].
   unfold agg_step at 2. rewrite <- IH. f_equal. destruct (cs_bump e c); reflexivity.
 Qed.
+
+(* ------------------------------------------------------------------ Server::send_client_stats *)
+Theorem gen_send_client_stats_model : forall rec q ev,
+  gen_send_client_stats rec q ev
+  = (let '(rec', q', o) := send_client_stats rec q in
+     Ok (rec', q', ev ++ match o with Some x => [x] | None => [] end)).
+Proof.
+  intros rec q ev. unfold gen_send_client_stats, send_client_stats. cbv zeta.
+  destruct rec as [|c rec].
+  - cbn. rewrite app_nil_r. reflexivity.
+  - replace (0 <? lenN (c :: rec)) with true by (unfold lenN; cbn [length]; destruct (length rec); reflexivity).
+    cbn [obind]. destruct (sq_force_push q (c :: rec)) as [q' o]. reflexivity.
+Qed.
+
+(* in particular the aggregated recorder (no per-client records) is left alone by a statistics tick,
+   and a per-client recorder is cleared exactly when its records were handed to the queue *)
+Corollary gen_tick_keeps_empty : forall q ev, gen_send_client_stats [] q ev = Ok ([], q, ev).
+Proof. intros. rewrite gen_send_client_stats_model. cbn. rewrite app_nil_r. reflexivity. Qed.
+
+(* the publishing step of the shared-queue model (the C17_queue theorems) is this function *)
+Lemma q_run_push_is_send_client_stats : forall q m lost x r,
+  q_run q m lost (QPush x :: r)
+  = (let '(_, q', o) := send_client_stats x q in
+     q_run q' m (lost ++ match o with Some y => [y] | None => [] end) r).
+Proof.
+  intros q m lost x r. cbn [q_run]. unfold send_client_stats. destruct x as [|c x].
+  - rewrite app_nil_r. reflexivity.
+  - destruct (sq_force_push q (c :: x)) as [q' [o|]]; [reflexivity|rewrite app_nil_r; reflexivity].
+Qed.
